@@ -141,3 +141,96 @@ def reachable_funcs(ctx, root=T.MINIMIZE, live=None):
     def ok(ev):
         return live is None or not live.is_dead(ev)
     return ctx.cg.reach(root, ok)
+
+
+# ---------------------------------------------------------------------------
+# parallel lists (filter / history triples)
+MUTATORS = {"append", "pop", "insert", "remove", "clear", "extend", "reverse", "sort"}
+
+
+def field_of(expr, self_name):
+    """self.F -> F"""
+    if isinstance(expr, ast.Attribute) and isinstance(expr.value, ast.Name) and expr.value.id == self_name:
+        return expr.attr
+    return None
+
+
+def list_ops(ctx, cls, fields):
+    """All mutation sites of the given list fields in the class:
+    list of (func, stmt, field, op, argtext, argnode)."""
+    out = []
+    for f in list(cls.methods.values()) + list(cls.getters.values()) + list(cls.setters.values()):
+        sn = f.self_name
+        if sn is None:
+            continue
+        for node in ast.walk(f.node):
+            if isinstance(node, ast.Call) and isinstance(node.func, ast.Attribute) and node.func.attr in MUTATORS:
+                fld = field_of(node.func.value, sn)
+                if fld in fields:
+                    from ..astutil import enclosing_stmt
+                    out.append((f, enclosing_stmt(node), fld, node.func.attr, ", ".join(norm(a) for a in node.args), node))
+            elif isinstance(node, (ast.Assign, ast.AugAssign, ast.Delete)):
+                tgts = node.targets if isinstance(node, (ast.Assign, ast.Delete)) else [node.target]
+                for t in tgts:
+                    base = t
+                    sub = False
+                    while isinstance(base, ast.Subscript):
+                        base = base.value
+                        sub = True
+                    fld = field_of(base, sn)
+                    if fld in fields:
+                        op = "del" if isinstance(node, ast.Delete) else ("setitem" if sub else ("augassign" if isinstance(node, ast.AugAssign) else "assign"))
+                        out.append((f, node, fld, op, norm(node.value) if hasattr(node, "value") and node.value is not None else "", node))
+    # writers outside the class
+    for f in ctx.repo.funcs.values():
+        if f.cls is cls:
+            continue
+        for node in ast.walk(f.node):
+            if isinstance(node, ast.Attribute) and node.attr in fields:
+                par = getattr(node, "_parent", None)
+                if isinstance(node.ctx, (ast.Store, ast.Del)):
+                    out.append((f, par, node.attr, "foreign-store", "", node))
+                elif isinstance(par, ast.Attribute) and par.attr in MUTATORS and isinstance(getattr(par, "_parent", None), ast.Call):
+                    out.append((f, par, node.attr, "foreign-" + par.attr, "", node))
+    return out
+
+
+def block_of(stmt):
+    """(parent node, field name) identifying the statement list holding stmt."""
+    par = getattr(stmt, "_parent", None)
+    for field in ("body", "orelse", "finalbody"):
+        lst = getattr(par, field, None)
+        if isinstance(lst, list) and any(s is stmt for s in lst):
+            return (id(par), field)
+    return (id(par), "?")
+
+
+def check_lockstep(ctx, rep, rule, cls, fields, what):
+    """The lists `fields` are mutated in lock-step: in every statement block
+    the sequences of (op, argument) applied to each list are identical."""
+    ops = list_ops(ctx, cls, set(fields))
+    blocks = {}
+    for f, stmt, fld, op, arg, node in ops:
+        if op.startswith("foreign"):
+            rep.bad(rule, f"{f.local}:{getattr(node, 'lineno', 0)} {fld} {op}")
+            rep.finding(rule, f, norm(stmt)[:100], getattr(node, "lineno", 0),
+                        f"the {what} list `{fld}` is modified outside its owning class")
+            continue
+        if f.name == "__init__" and op == "assign":
+            continue
+        blocks.setdefault((f.qual, block_of(stmt)), []).append((getattr(stmt, "lineno", 0), fld, op, arg, f, stmt))
+    n = 0
+    for key, items in blocks.items():
+        items.sort(key=lambda x: x[0])
+        seqs = {fld: [(op, arg if op != "append" else "<v>") for _, fl, op, arg, _, _ in items if fl == fld] for fld in fields}
+        f = items[0][4]
+        ref = seqs[fields[0]]
+        n += 1
+        desc = f"{f.local}:{items[0][0]} block ops " + "; ".join(f"{fld}:{seqs[fld]}" for fld in fields)
+        if all(seqs[fld] == ref for fld in fields):
+            rep.ok(rule, desc)
+        else:
+            rep.bad(rule, desc)
+            rep.finding(rule, f, "; ".join(f"{fld}:{[o for o, _ in seqs[fld]]}" for fld in fields), items[0][0],
+                        f"the three {what} lists are not modified in lock-step in this block (an entry would pair a value with the wrong point)")
+    return ops, n
